@@ -110,14 +110,24 @@ pub fn read_facts_and_rules(file_name: &str) -> Result<Vec<String>, String> {
                     if line.len() > 0 {
                         match check_last_char(&line, line_number) {
                             Some(msg) => { return Err(msg); },
-                            None => { long_line += &line; },
+                            None => {
+                                // Lines were trimmed. Put a space between
+                                // them, so that '$X =' + 'a' is '$X = a'.
+                                long_line += &line;
+                                long_line += " ";
+                            },
                         }
                         rules.push(line);
                     }
                 }
                 line_number += 1;
             }
-            separate_rules(&long_line)
+            match separate_rules(&long_line) {
+                Ok(rules) => {
+                    Ok(rules.iter().map(|r| r.trim().to_string()).collect())
+                },
+                Err(msg) => { Err(msg) },
+            }
         },
         Err(msg) => {
             // Add file name to error message.
@@ -180,8 +190,10 @@ fn strip_comments(line: &str) -> String {
     for (i, ch) in chrs.iter().enumerate() {
         if *ch == '(' { round_depth += 1; }
         else if *ch == '[' { square_depth += 1; }
-        else if *ch == ')' { round_depth -= 1; }
-        else if *ch == ']' { square_depth -= 1; }
+        // A rule may continue over several lines, so a line may close
+        // a parenthesis or bracket which was opened on a previous line.
+        else if *ch == ')' { if round_depth > 0 { round_depth -= 1; } }
+        else if *ch == ']' { if square_depth > 0 { square_depth -= 1; } }
         else if round_depth == 0 && square_depth == 0 {
             if *ch == '#' || *ch == '%' {
                 index = i;
@@ -224,10 +236,17 @@ fn separate_rules(text: &str) -> Result<Vec<String>, String> {
     let mut num_quotes  = 0;
 
     let chrs = str_to_chars!(text);
-    for ch in chrs {
+    let length = chrs.len();
+    for (i, ch) in chrs.iter().enumerate() {
+        let ch = *ch;
         rule_str.push(ch);
         if ch == '.' && round_depth == 0 &&
             square_depth == 0 && num_quotes % 2 == 0 {
+            // A period between two digits is a decimal point (3.14),
+            // not the end of a rule.
+            if i > 0 && i + 1 < length &&
+               chrs[i - 1].is_ascii_digit() &&
+               chrs[i + 1].is_ascii_digit() { continue; }
             rules.push(rule_str);
             rule_str = "".to_string();
         }
@@ -239,7 +258,7 @@ fn separate_rules(text: &str) -> Result<Vec<String>, String> {
     } // for
 
     // Check for unmatched brackets here.
-    match unmatched_bracket(&rule_str, round_depth, square_depth) {
+    match unmatched_bracket(rule_str.trim(), round_depth, square_depth) {
         None => {},
         Some(msg) => { return Err(msg); },
     }
